@@ -19,13 +19,18 @@ Full statement / proved / missing
 * `C08_refine`      — FULL statement, proved: for every growth / spare-capacity policy `P` (no hypothesis on it at all:
                       the model takes `max needed (grow cap needed)`, which subsumes `∀ n, n < grow n`), every table
                       with `IdiomsSafe`, every history `ops` over the complete operation set (constructors incl.
-                      parser/collector-built values with spare capacity, add, addAll, delete, deleteAll, slice, map,
-                      select, reject, sort, flatten, unique, at, merge, keys, values, entries, mapValues,
+                      parser/collector-built values with spare capacity, the `Hash.new(tree)` constructor, add, addAll,
+                      delete, deleteAll, slice, the slices `EachSlice` hands out, map, select, reject, sort, flatten,
+                      unique, at/get of a nested container, merge, keys, values, entries, asArray, mapValues,
                       select/rejectPairs, mutable-hash put/putAll, observers), every value `i` and every later time `j`:
                       `content (runHeap P tbl (ops.take j)) i = pureResult ops i`.
                       By induction over the op list with the sealing invariant (`step_refines`: a step is the pure step
                       on the represented state and keeps every slice header valid; under a safe table no cell of an
                       existing backing array is ever written — all writes go to arrays allocated by that step).
+                      Observers (type inference, printing, hashing, serialising, iteration) are storage no-ops in the
+                      model; that they are in the code is part of the table obligation: the extractor scans EVERY method
+                      of Array / Hash / MutableHashValue for writes through receiver storage and `IdiomsSafe` rejects
+                      any such row.
 * `C08_sealed`      — the sealing invariant as a theorem of its own: extending a history leaves every existing backing
                       array untouched, cell by cell (`heap' = heap ++ new arrays`).
 * `C08_stable`      — corollary: what value `i` holds at any two later times is the same.
@@ -35,12 +40,17 @@ Full statement / proved / missing
                       `resliceThenAppend`, resp. an in-place write row for `Array.Sort`) admits a concrete three-step
                       history on which an earlier value's content changes (the `a.Add(2); a.Add(3)` shape with spare
                       capacity; these are the defects of tag `verif-base` and mutants of DESIGN Appendix E).
-* missing / trusted — (1) the extractor's classification of Go expressions into idioms (DESIGN §5.4); (2) nested
-                      containers inside a cell are pure values in the model: their own storage is covered when they are
-                      pool values themselves (every slice header that exists is some pool value's), the pointer
-                      identity `a.Add(b)` keeps with `b` is not modelled; (3) the lazily built caches (`Hash.index`,
-                      `reducedType`, `detailedType`) are not part of the model — they are not observable while
-                      contents are immutable, and the harness's snapshot predicate watches them on the real code;
+* missing / trusted — (1) the extractor's classification of Go expressions into idioms (DESIGN §5.4) — cross-checked on
+                      every run by the storage-shape correspondence (which values share a backing array, read off the
+                      real slice headers, against the model's headers); (2) nested containers inside a cell are pure
+                      values in the model, i.e. `a.Add(b)` stores a copy of `b`'s content where Go stores a pointer to
+                      `b`.  For a safe table this is not a loss: `b` is a pool value, so by `C08_refine`/`C08_stable`
+                      what the pointer leads to at any later time IS that copy; the two models can differ only for an
+                      unsafe table, where a one-level witness of the failure already exists (the converses below).
+                      On the real code the snapshot predicate is deep (element walk, text, key); (3) the lazily built
+                      caches (`Hash.index`, `reducedType`, `detailedType`) are not part of the model — not observable
+                      while contents are immutable; the harness's snapshot and its `stale-type` predicate watch them on
+                      the real code (a stale `reducedType` of MutableHashValue was found and fixed that way);
                       (4) `Equals`/`ToKey` are modelled by one canonical key (their agreement is C07).
 -/
 namespace Pcore.Coll
